@@ -201,10 +201,10 @@ PROPS["C13"] = {
     "level": "model_checking",
     "harness": ["C13_"],
     "tiers": {
-        "quick": {"timeout": "20s", "maxsteps": 12000000, "bounds": "all 64 import graphs on 2 source modules + main (edges are finite choices); 13 isolation/immutability/freshness cases with a symbolic input; 12 import names (plain, path-like, module-map names) x 3 configurations with file import disabled", "cross": 2},
+        "quick": {"timeout": "20s", "maxsteps": 12000000, "bounds": "all 64 import graphs on 2 source modules + main (edges are finite choices); 9 hand-picked larger graphs (chains, deep diamonds, cycles not through the first module); 13 isolation/immutability/freshness cases with a symbolic input; 12 import names (plain, path-like, module-map names) x 3 configurations with file import disabled", "cross": 2},
         "thorough": {"timeout": "60s", "maxsteps": 12000000, "bounds": "all 4096 import graphs on 3 source modules + main; rest as quick", "cross": 3},
     },
-    "reach": {"C13_Graphs": ["cycle", "acyclic"], "C13_Isolation": ["iso-ok", "iso-compile-error", "iso-run-error"], "C13_NoFileSystem": ["nofs"]},
+    "reach": {"C13_Shapes": ["shape-cycle", "shape-acyclic"], "C13_Graphs": ["cycle", "acyclic"], "C13_Isolation": ["iso-ok", "iso-compile-error", "iso-run-error"], "C13_NoFileSystem": ["nofs"]},
     "assumptions": ["the graph family has no wide variable: it is an exhaustive case split of the edge set (stated in DESIGN.md); 'never consults the file system' = no path reaches an os/io/ioutil/filepath entry point, all of which the engine traps",
                     "'compiled once' is observed as the number of distinct module functions in the constant pool after de-duplication"],
     "outside": "larger graphs; file import enabled (real files)",
